@@ -235,6 +235,31 @@ def check_fresh_result(R, prog):
             R.bad(F("FRESH-RESULT", fi, "%s header" % fi.name,
                     "the result's header must be a copy of the input's header (keeps the description and earlier entries without sharing "
                     "the dictionary); found %s" % [src(h) for h in hdr]))
+        # nothing of the input is shared with the result: an attribute of the result bound to an attribute of the input (other than
+        # through copy / list / dict ..) makes later work on either formula show in the other
+        shared = []
+        for s in stmts_in(fi.node):
+            if isinstance(s, ast.Assign):
+                for t in s.targets:
+                    if isinstance(t, ast.Attribute) and isinstance(t.value, ast.Name) and t.value.id == out:
+                        v = s.value
+                        if isinstance(v, ast.Attribute) and isinstance(v.value, ast.Name) and v.value.id == fpar:
+                            shared.append(s)
+                        if isinstance(v, ast.Call) and isinstance(v.func, ast.Name) and v.func.id == "getattr" and v.args and \
+                                isinstance(v.args[0], ast.Name) and v.args[0].id == fpar:
+                            shared.append(s)
+            if isinstance(s, ast.Expr) and isinstance(s.value, ast.Call) and isinstance(s.value.func, ast.Name) and s.value.func.id == "setattr" and \
+                    len(s.value.args) == 3 and src(s.value.args[0]) == out and isinstance(s.value.args[2], ast.Attribute) and \
+                    isinstance(s.value.args[2].value, ast.Name) and s.value.args[2].value.id == fpar:
+                shared.append(s)
+            if isinstance(s, ast.Expr) and isinstance(s.value, ast.Call) and src(s.value.func) in ("%s.__dict__.update" % out, "vars(%s).update" % out):
+                shared.append(s)
+        if shared:
+            R.bad(F("FRESH-RESULT", fi, "%s shares state with its input" % fi.name,
+                    "`%s`: the result refers to an object owned by the input formula, so allocating variables / adding clauses on one of "
+                    "them changes the other (copy it, or rebuild it on the new formula)" % src(shared[0])[:80], shared[0]))
+        else:
+            R.ok("FRESH-RESULT", "%s: no attribute of the result is bound to an attribute of the input" % fi.name, fi.key)
         rets = [s for s in stmts_in(fi.node) if isinstance(s, ast.Return)]
         if rets and all(r.value is not None and src(r.value) == out for r in rets):
             R.ok("FRESH-RESULT", "%s returns the new formula" % fi.name, fi.key)
